@@ -272,12 +272,12 @@ def shared_attr(director, obj, attr, name):
   return obj
 
 
-def shared_class_attrs(director, module, clsname, names):
+def shared_class_attrs(director, module, clsname, names, initial=None):
   """make loads and stores of the class attributes `names` ({attribute: operation target}) of module.<clsname> visible operations: the
   module's name is rebound to a subclass whose metaclass has a property per attribute (type objects cannot change their metaclass; code
   that says `ClassName.attr` resolves the module global, i.e. the subclass).  Returns an undo function."""
   cls = getattr(module, clsname)
-  cells = {a: cls.__dict__[a] for a in names}
+  cells = {a: (initial or {}).get(a, cls.__dict__[a]) for a in names}
   props = {}
   for a, target in names.items():
     def getter(c, _a=a, _t=target):
